@@ -15,11 +15,11 @@ CHECKS = {
    note="classes exhaustive within depth <= 3 / node budget; bytes inside a class and the instances are sampled with the seed; one rendering decision pinned by an existing test is a known finding",
    technique="TLA+ tree/layout generator + TLC enumeration of classes; real parsers in a child process; strict list reader", design="DESIGN.md section 5 C12"),
  "C13": dict(level="model_checking",
-   text="GluonMime.tla (family fetch) enumerates (tree, shape, section path, partial class) with the expected value as chunk indexes (SectionValue, Partial; laws HeaderTextIsAll, FieldsPartition, PartialLaws); each message is APPENDed to a child-process server and every case FETCHed over the wire and compared octet for octet: BODY[] = appended bytes plus exactly one well-formed id header line, RFC822 = BODY[], RFC822.SIZE = length, HEADER+TEXT = BODY[], each BODY[n.m], HEADER.FIELDS / .NOT, six partial classes per section, literal framing checked by the raw client; sizes across the 256 KiB store block boundary",
+   text="GluonMime.tla (family fetch) enumerates (tree, shape, section path, partial class) with the expected value as chunk indexes (SectionValue, Partial; laws HeaderTextIsAll, FieldsPartition, PartialLaws); each message is APPENDed to a child-process server and every case FETCHed over the wire and compared octet for octet: BODY[] = appended bytes plus exactly one well-formed id header line, RFC822 = BODY[], RFC822.SIZE = length, HEADER+TEXT = BODY[], each BODY[n.m], HEADER.FIELDS / .NOT, six partial classes per section, literal framing checked by the raw client; sizes across the 256 KiB store block boundary; groups in default shape and all size classes are run once per arrival path (Arrivals: APPEND, refused APPEND found in the recovery mailbox, MOVE out of the recovery mailbox)",
    note="bounded trees (depth <= 3); partial offsets seeded; a top-level message/rfc822 is excluded (RFC 3501 does not settle its numbering)",
    technique="TLA+ section/partial enumeration + wire FETCH compared with bytes known by construction", design="DESIGN.md section 5 C13"),
  "C15": dict(level="model_checking",
-   text="GluonSearch.tla: Eval(key, message, view) for all 38 search key kinds over six fixed mailbox contents (incl. two stale views that still hold a message expunged elsewhere, boundary dates and zones, exact sizes around the LARGER/SMALLER threshold); laws InsideView, AscendingNoDup, UidsSameMessages, NotIsComplement, OrIsUnion (De Morgan), ListIsIntersection, BadIffBeyond, LeafLaws are invariants; TLC enumerates every key tree of the bounded depth with the expected ascending result; each case is run as SEARCH and UID SEARCH on child-process servers and compared as a sequence",
+   text="GluonSearch.tla: Eval(key, message, view) for all 38 search key kinds over six fixed mailbox contents (incl. two stale views that still hold a message expunged elsewhere, boundary dates and zones, exact sizes around the LARGER/SMALLER threshold); laws InsideView, AscendingNoDup, UidsSameMessages, NotIsComplement, OrIsUnion (De Morgan), ListIsIntersection, BadIffBeyond, SetOrderIrrelevant, LeafLaws are invariants (message-set leaves include unions written in non-ascending order); TLC enumerates every key tree of the bounded depth with the expected ascending result; each case is run as SEARCH and UID SEARCH on child-process servers and compared as a sequence",
    note="mailboxes of up to 4 messages; key depth <= 2 (quick, plus a depth-3 sample) / <= 3 (thorough); gluon choices adopted: internal date = UTC date, sent date = date as written",
    technique="TLA+ evaluator + TLC enumeration of key trees; wire SEARCH / UID SEARCH compared with TLC's sets", design="DESIGN.md section 5 C15"),
 
@@ -33,7 +33,7 @@ CHECKS = {
    technique="TLA+ session spec + TLC exhaustive state graph with printed transitions; covering tours replayed over the wire on a two-user server with full projection of both users after every step", design="DESIGN.md section 5b C18"),
 
  "C07": dict(level="fault_enumeration",
-   text="GluonCrash.tla models 16 operations (APPEND, COPY, MOVE, EXPUNGE, STORE, CREATE, DELETE, RENAME, SUBSCRIBE, UNSUBSCRIBE, MOVE/COPY out of the recovery mailbox, connector MessagesCreated / MessageUpdated / MessageDeleted, session release) as their real step lists (every store call, BEGIN, every transaction method, COMMIT) with Crash, FailStep, Recover; invariants AckedSurvives, BeforeOrAfter, AppendNeverLost, EveryListedFetchable, NoOrphans; TLC enumerates every (operation, step, kill|error) triple - the fault plan - with the allowed post-recovery states; each triple is executed in a child process with the store and the database wrapped (generated delegating wrapper for all 74 transaction methods) that kills itself or fails the call at step k; a fresh server on the same directories is compared (LIST, LSUB, UIDVALIDITY, UIDNEXT, FETCH with exact bytes, rows marked deleted, orphan files) with the allowed states; a step list that differs from the spec's is reported as spec out of date (exit 2)",
+   text="GluonCrash.tla models 18 operations (FETCH with a failing cache read and the write-back of the re-downloaded literal, a MessagesCreated batch of 1001 messages faulted at the chunk edges, APPEND, COPY, MOVE, EXPUNGE, STORE, CREATE, DELETE, RENAME, SUBSCRIBE, UNSUBSCRIBE, MOVE/COPY out of the recovery mailbox, connector MessagesCreated / MessageUpdated / MessageDeleted, session release) as their real step lists (every store call, BEGIN, every transaction method, COMMIT) with Crash, FailStep, Recover; invariants AckedSurvives, BeforeOrAfter, AppendNeverLost, EveryListedFetchable, NoOrphans; TLC enumerates every (operation, step, kill|error) triple - the fault plan - with the allowed post-recovery states; each triple is executed in a child process with the store and the database wrapped (generated delegating wrapper for all 74 transaction methods) that kills itself or fails the call at step k; a fresh server on the same directories is compared (LIST, LSUB, UIDVALIDITY, UIDNEXT, FETCH with exact bytes, rows marked deleted, orphan files; a message and its cache file must carry exactly one id header line, that of their own row) with the allowed states; a step list that differs from the spec's is reported as spec out of date (exit 2)",
    note="kill = SIGKILL at a step boundary (not power loss; SQLite WAL); plain read transactions are not step boundaries; connector operations run while the only session watches an untouched mailbox; \\Recent not compared",
    technique="TLA+ step-list model + TLC enumeration of the fault plan; fault/kill injection in child processes through public store/db options", design="DESIGN.md section 5 C07"),
 
@@ -48,8 +48,8 @@ CHECKS = {
    technique="TLA+ spec + TLC (exhaustive + simulation); replay with a failure-scheduled harness connector", design="DESIGN.md section 5 C20"),
 
  "C06": dict(level="model_checking",
-   text="GluonCore.tla connector part: one action per message-level update kind (MessagesCreated, MessageMailboxesUpdated, MessageFlagsUpdated, MessageUpdated with unchanged literal, MessageDeleted, MessageIDChanged, Noop), duplicates/echoes (model: no-ops) and updates naming unknown or protected objects with the acknowledgement class the connector must see; behaviours interleaving them with client commands are generated by TLC and replayed through the harness connector: the Waiter result of every update, the updates enqueued to every session (an echo must enqueue none), the wire output of the observing sessions and every mailbox after every step must equal the model; a missing acknowledgement within 10 s is a violation",
-   note=CORE_NOTE + "; mailbox-level updates on real mailboxes are replayed by the namespace module (C14); MessageUpdated with a changed literal and UIDValidityBumped are not modelled",
+   text="GluonCore.tla connector part: one action per message-level update kind (MessagesCreated - plain, with flags, batch of two as one Exists update, with an unknown mailbox to be ignored, for a known message; MessageMailboxesUpdated; MessageFlagsUpdated; MessageUpdated with unchanged literal, with a CHANGED literal (old entity removed and marked deleted, new entity under the same remote id) and with AllowCreate for an unknown message; MessageDeleted; MessageIDChanged; UIDValidityBumped with the invalidation of every selected session (BYE at its next command, reconnect); Noop), duplicates/echoes (model: no-ops) and updates naming unknown or protected objects with the acknowledgement class the connector must see; behaviours interleaving them with client commands are generated by TLC and replayed through the harness connector: the Waiter result of every update, the updates enqueued to every session (an echo must enqueue none), the wire output of the observing sessions and every mailbox after every step must equal the model; a missing acknowledgement within 10 s is a violation",
+   note=CORE_NOTE + "; mailbox-level updates on real mailboxes are replayed by the namespace module (C14); the exhaustive family conn2 (one mailbox, 3 messages) is model-checked in the thorough tier",
    technique="TLA+ spec + TLC-generated behaviours; replay through a harness connector observing every Waiter", design="DESIGN.md section 5 C06"),
 
  "C17": dict(level="model_checking",
@@ -58,7 +58,7 @@ CHECKS = {
    technique="TLA+ spec with limit constants + TLC; gated replay on a server configured with the same limits; per-step database comparison", design="DESIGN.md section 5 C17"),
 
  "C19": dict(level="model_checking",
-   text="GluonLocks.tla: program-counter machines of gluon's goroutines (accept loop, serve, per-session loop / reader / handler / queue pump, per-user update loop and forwarder, Close and RemoveUser) over every lock, wait group and channel they share; TLC checks deadlock freedom, LockOrderCode, OnlyOwner, StatesCounted, NoUseAfterDbClose, DbClosedMeansNoStates and, under weak fairness, CloseReturns / RemoveUserReturns / EveryCommandCompletes / NothingLeftEventually exhaustively on bounded configurations; as-code and seeded configurations must end with their named violation (non-vacuity). Binding: a stress driver runs concurrent sessions, connector updates, disconnects, RemoveUser and Close against a real server built with the verif hooks; every round's recording (lock acquire/release, wait-group, channel, goroutine lifecycle, snapshot touches) is validated by TLC as a behaviour of GluonLocks (GluonLocksTrace.tla) with the invariants evaluated on it; watchdogs on every client call and on Close/RemoveUser and a goroutine dump after Close judge hangs and leaks",
+   text="GluonLocks.tla: program-counter machines of gluon's goroutines (accept loop, serve, per-session loop / reader / handler / queue pump, per-user update loop and forwarder, Close and RemoveUser) over every lock, wait group and channel they share; TLC checks deadlock freedom, LockOrderCode, OnlyOwner, StatesCounted, NoUseAfterDbClose, DbClosedMeansNoStates and, under weak fairness, CloseReturns / RemoveUserReturns / EveryCommandCompletes / NothingLeftEventually exhaustively on bounded configurations; as-code and seeded configurations must end with their named violation (non-vacuity). Binding: a stress driver runs concurrent sessions, connector updates, disconnects, RemoveUser and Close against a real server built with the verif hooks; every round's recording (lock acquire/release, wait-group, channel, goroutine lifecycle, snapshot touches) is validated by TLC as a behaviour of GluonLocks (GluonLocksTrace.tla) with the invariants evaluated on it; watchdogs on every client call and on Close/RemoveUser and a goroutine dump after Close judge hangs and leaks; directed rounds (Serve context cancelled before Close; a blocked session with more than 32 queued updates dropped before RemoveUser / Close; RemoveUser / Close under a stream of connector updates) are the real-code counterparts of the as-code / seeded witnesses of the specification",
    note="schedules of the real server are sampled (seeded stress rounds), the model is exhaustive only within its bounds (one session at full step granularity, two/three sessions with coarse critical sections); data races proper are reported by an optional go test -race run of the same stress scenario (thorough) and are outside what the specification decides; FETCH worker goroutines and the event publisher are projected away; one known finding (removeState peeks into other sessions' snapshots)",
    technique="TLA+ spec of goroutines/locks/wait groups/channels + TLC (safety, deadlock, liveness) + TLC trace validation of recordings from the hooked real server + watchdogs", design="DESIGN.md section 5 C19"),
 
@@ -78,7 +78,7 @@ CHECKS = {
    note=CORE_NOTE + "; batch sizes beyond a few messages are covered by C08's clone groups, not here", technique="TLA+ reference model + TLC-generated behaviours; per-step refinement check against the real database view", design="DESIGN.md section 5 C03"),
  "C04": dict(level="model_checking",
    text="GluonCore.tla action properties UidNextMonotone / NewUidAboveAllEver / UidDenotesOneMessage over a history variable; on replay every APPENDUID/COPYUID and every UID seen is recorded per mailbox and checked for reuse, order, UIDNEXT and that announced UIDs hold the announced message",
-   note=CORE_NOTE + "; second half GluonValidity.tla: UIDVALIDITY per name across delete, re-create, UIDValidityBumped and restarts with the real epoch generator (known finding F16)", technique="TLA+ history-variable properties + replay with UID bookkeeping", design="DESIGN.md section 5 C04"),
+   note=CORE_NOTE + "; second half GluonValidity.tla: UIDVALIDITY per name across delete, re-create (by two client sessions and the connector, including refused CREATEs), UIDValidityBumped and restarts with the real epoch generator (known finding F16); every 6-step behaviour of two sessions on one name is replayed on a shared server; UIDVALIDITY must not change except through a bump (checked at the end of every GluonCore behaviour)", technique="TLA+ history-variable properties + replay with UID bookkeeping", design="DESIGN.md section 5 C04"),
  "C05": dict(level="model_checking",
    text="GluonCore.tla action properties NoExpungeDuringFetchStore / RemovalsAnnouncedWhenPermitted / RemovalBeforeReAdd and the modelled popResponders rule; on replay an EXPUNGE line received while FETCH/STORE is in progress is a violation and [EXPUNGEISSUED] must be present exactly when the model holds back a removal",
    note=CORE_NOTE, technique="TLA+ action properties + gated replay observing the command in progress", design="DESIGN.md section 5 C05"),
